@@ -1,5 +1,5 @@
 (* Extraction of the type-checker model.  Directives: only those of ExtrOcamlBasic and ExtrOcamlString. *)
 From Coq Require Import Extraction ExtrOcamlBasic ExtrOcamlString.
-From Sylt Require Import Syntax.Resolved Types.TyGraph Types.Tc.
+From Sylt Require Import Syntax.Resolved Types.TyGraph Types.Tc Types.NoPanic.
 Extraction Language OCaml.
-Extraction "typesmodel.ml" Tc.typecheck.
+Extraction "typesmodel.ml" Tc.typecheck NoPanic.input_ok.
